@@ -22,8 +22,8 @@ open Foca Foca.C07
 theorem calm_call_stays_calm (E : Env) (τ : Id → Nat) (ids : List Id) (hd : DistinctAddrs ids)
     (s : State) (op : Op) (orc : Oracle) (h : CalmInv E τ ids s) (hop : CalmOp E τ ids s op) :
     match Foca.step E s op orc with
-    | .done s' eff _ _ => CalmInv E τ ids s' ∧ ∀ e ∈ eff, CalmEff E τ ids e
-    | .stuck _ => True := CalmSent.step E τ ids hd s op orc h hop
+    | .done s' eff _ _ => CalmInv E τ ids s' ∧ ∀ e ∈ eff, CalmEff E τ ids (· ≠ .turnUndead) e
+    | .stuck _ => True := CalmSent.step E τ ids (· ≠ .turnUndead) (fun _ h => h) hd s op orc h hop
 
 variable (E : Env) (ids : List Id) (hl : CodecLaws E.codec) (hhdr : HeaderLaw E.codec) (hdist : DistinctAddrs ids)
 include hl hhdr hdist
